@@ -204,25 +204,47 @@ func c05Unencodable(c *fw.Ctx, rng *fw.RNG) {
 		{K: "a", V: model.Val{K: model.KList, L: []model.Val{{K: model.KInt, I: 1}, {K: model.KString, S: "x"}, {K: model.KBool, B: true}}}},
 		{K: "b", V: model.Val{K: model.KBytes, S: "yz"}},
 		{K: "c", V: model.Val{K: model.KInt, I: int64(rng.Intn(1000))}},
+		{K: "d", V: model.Val{K: model.KFloat, F: 2.5}},
+		{K: "e", V: model.Val{K: model.KNull}},
 	}}
+	// ... or, in two cases out of three, a list of one scalar of every kind in random order, or a single scalar:
+	// an encoder that swallows the error of the LAST accessor it calls has nothing left to trip over
+	scal := []model.Val{model.Int(int64(rng.Intn(1000)) - 500), model.String("x"), model.Bool(true), model.Bytes([]byte("yz")), model.Float(2.5), model.Link(model.GenCID(rng))}
+	rng.Shuffle(len(scal), func(i, j int) { scal[i], scal[j] = scal[j], scal[i] })
+	hasLink, reads := true, 14
+	switch rng.Intn(3) {
+	case 0:
+		hasLink, reads = false, 28
+	case 1:
+		tree = model.List(scal...)
+	case 2:
+		tree, reads = scal[0], 2
+		hasLink = tree.K == model.KLink
+	}
 	type probe struct {
 		name  string
 		codec uint64
-		mk    func() datamodel.Node // a fresh node per use: a Fault is consumed by the reads made on it
+		mk    func() (datamodel.Node, *fnode.Fault) // a fresh node per use: a Fault is consumed by the reads made on it
+	}
+	plain := func(n datamodel.Node) func() (datamodel.Node, *fnode.Fault) {
+		return func() (datamodel.Node, *fnode.Fault) { return n, &fnode.Fault{After: 1 << 30} }
 	}
 	probes := []probe{
-		{"raw codec given a map", 0x55, func() datamodel.Node { return fnode.New(tree) }},
-		{"raw codec given a string", 0x55, func() datamodel.Node { return basicnode.NewString("s") }},
-		{"dag-json given NaN", 0x0129, func() datamodel.Node {
-			return fnode.New(model.Val{K: model.KList, L: []model.Val{{K: model.KInt, I: 1}, {K: model.KFloat, F: nan()}}})
-		}},
+		{"raw codec given a map", 0x55, plain(fnode.New(model.Val{K: model.KMap, M: []model.Entry{{K: "k", V: model.Int(1)}}}))},
+		{"raw codec given a string", 0x55, plain(basicnode.NewString("s"))},
+		{"dag-json given NaN", 0x0129, plain(fnode.New(model.Val{K: model.KList, L: []model.Val{{K: model.KInt, I: 1}, {K: model.KFloat, F: nan()}}}))},
 	}
 	for _, codec := range []uint64{0x71, 0x0129, 0x51, 0x0200} {
-		for _, scalars := range []bool{false, true} {
-			after, scalars := rng.Intn(6), scalars
-			probes = append(probes, probe{fmt.Sprintf("codec 0x%x given a node that fails after %d reads (scalars=%v)", codec, after, scalars), codec,
-				func() datamodel.Node {
-					return fnode.NewFaulty(tree, &fnode.Fault{After: after, Scalars: scalars, Lookups: true})
+		if hasLink && (codec == 0x51 || codec == 0x0200) {
+			probes = append(probes, probe{fmt.Sprintf("codec 0x%x given a link", codec), codec, plain(fnode.New(tree))})
+			continue
+		}
+		for k, scalars := range []bool{false, true, true} {
+			after, scalars, once := rng.Intn(reads), scalars, k == 2
+			probes = append(probes, probe{fmt.Sprintf("codec 0x%x given a node that fails after %d reads (scalars=%v, once=%v)", codec, after, scalars, once), codec,
+				func() (datamodel.Node, *fnode.Fault) {
+					f := &fnode.Fault{After: after, Scalars: scalars, Lookups: true, Once: once}
+					return fnode.NewFaulty(tree, f), f
 				}})
 		}
 	}
@@ -232,23 +254,31 @@ func c05Unencodable(c *fw.Ctx, rng *fw.RNG) {
 		c.SetCase(func() any { return map[string]any{"family": "unencodable value", "probe": pr.name} })
 		// does the codec itself refuse this node? (a fault placed after the last read the encoder makes never fires)
 		var direct error
+		dn, df := pr.mk()
 		if enc, err := multicodec.LookupEncoder(pr.codec); err == nil {
-			if c.Guard("C05:Encode:unencodable", func() { direct = enc(pr.mk(), &bytes.Buffer{}) }) {
+			if c.Guard("C05:Encode:unencodable", func() { direct = enc(dn, &bytes.Buffer{}) }) {
 				continue
 			}
 		}
-		if direct == nil {
+		if direct == nil && df.Fired {
+			// one of the node's accessors answered with an error and the encoder reported success: whatever it
+			// wrote, it is not the encoding of a value it could not read
+			c.Deviate(fmt.Sprintf("C05:unencodable:encoder-swallows-node-error:%#x", pr.codec), fmt.Sprintf("%s: an accessor of the node returned an error and the codec's Encode returned nil", pr.name))
+		}
+		if direct == nil && !df.Fired {
 			c.Count("unencodable_probes_encodable_after_all", 1)
 			continue
 		}
 		before := len(ms.Bag)
 		var l1, l2 datamodel.Link
 		var e1, e2 error
-		if !c.Guard("C05:ComputeLink:unencodable", func() { l2, e2 = lsys.ComputeLink(lp, pr.mk()) }) && (e2 == nil || l2 != nil) {
-			c.Deviate("C05:unencodable:computelink-no-error", fmt.Sprintf("%s: the codec's own Encode fails (%v) but ComputeLink returned link=%v err=%v", pr.name, direct, l2, e2))
+		n2, _ := pr.mk()
+		if !c.Guard("C05:ComputeLink:unencodable", func() { l2, e2 = lsys.ComputeLink(lp, n2) }) && (e2 == nil || l2 != nil) {
+			c.Deviate("C05:unencodable:computelink-no-error", fmt.Sprintf("%s: the value cannot be encoded (Encode: %v) but ComputeLink returned link=%v err=%v", pr.name, direct, l2, e2))
 		}
-		if !c.Guard("C05:Store:unencodable", func() { l1, e1 = lsys.Store(linking.LinkContext{}, lp, pr.mk()) }) && (e1 == nil || l1 != nil) {
-			c.Deviate("C05:unencodable:store-no-error", fmt.Sprintf("%s: the codec's own Encode fails (%v) but Store returned link=%v err=%v", pr.name, direct, l1, e1))
+		n1, _ := pr.mk()
+		if !c.Guard("C05:Store:unencodable", func() { l1, e1 = lsys.Store(linking.LinkContext{}, lp, n1) }) && (e1 == nil || l1 != nil) {
+			c.Deviate("C05:unencodable:store-no-error", fmt.Sprintf("%s: the value cannot be encoded (Encode: %v) but Store returned link=%v err=%v", pr.name, direct, l1, e1))
 		}
 		if len(ms.Bag) != before {
 			c.Deviate("C05:unencodable:store-left-a-block", fmt.Sprintf("%s: Store failed (%v) and the storage holds %d blocks, %d before", pr.name, e1, len(ms.Bag), before))
